@@ -34,7 +34,7 @@ REQUIRED = ["at_most_once_atomic", "at_most_one_success_atomic", "at_most_one_su
             "fact_form_sources", "fact_form_tables", "code_dead_after_any_attempt", "vp_nonce_dead_after_any_response", "refused_grant_touches_nothing",
             "handleCode_refines_thread", "token_endpoint_at_most_once_all_schedules",
             "s2s_envelope_accepted_only_if_all_fresh", "s2s_nonce_no_replay_within_ttl", "vp_nonce_accepted_only_if_common",
-            "request_object_dead_after_any_fetch", "landing_token_dead_after_use", "dpop_refusal_registers_nothing", "dpop_jti_replay_refused"]
+            "request_object_dead_after_any_fetch", "landing_token_dead_after_use", "dpop_refusal_registers_nothing", "dpop_jti_replay_refused", "dpop_jti_no_replay_within_ttl"]
 
 
 def oracle(op, line, facts):
